@@ -32,6 +32,9 @@ import (
 //	     CURRENT record (seq 2) carries reqkind/reqpv, while the routing table holds an OLDER record (seq 1) of the same
 //	     identity advertising tablepv (none: the peer is not in the table); exhaust=1: no inbound slot is free.
 //	     enc = which ACCEPT encoding the reply is in (1: n verdict bytes, 0: a bitlist of n bits)
+//	accfull <own> <reqpv> <n> | ok acc=<k> cid=<z|nz>     the same OFFER path with the validation queue FULL: number of keys the
+//	                                                        reply marks accepted (read in the encoding negotiated from reqpv) and
+//	                                                        whether it announces a connection id
 //	live <a> <b> <n> | ok va=<r> vb=<r> offer=<..> find=<..>  two real instances over loopback UDP (offer A->B of n bytes, large find-content B<-A)
 func init() { registry["C19"] = runC19 }
 
@@ -340,6 +343,54 @@ func c19accenc(c *Ctx, own []byte, tablePv string, reqKind string, reqPv []byte,
 	c.Emit("%s | ok enc=%s", head, enc)
 }
 
+func c19accfull(c *Ctx, own, reqPv []byte, n int) {
+	q := make(chan *portalwire.ContentElement, 1)
+	q <- &portalwire.ContentElement{}
+	R, err := portalwire.VerifONewNode(portalwire.VerifONodeConfig{Key: c19key(c), Versions: own, MaxUtpConn: 4, Storage: storage.NewMockStorage(), ContentQueue: q})
+	if err != nil {
+		panic(err)
+	}
+	defer R.Stop()
+	head := fmt.Sprintf("accfull %s %s %d", hx(own), hx(reqPv), n)
+	c.Count("accfull")
+	req := c19recordSeq(c19key(c), "list", reqPv, 1)
+	ver, verr := portalwire.VerifOFindBiggestSameNumber(own, reqPv)
+	keys := make([][]byte, n)
+	for i := range keys {
+		keys[i] = append([]byte("c19-accfull-"), c.Rng.Bytes(8)...)
+	}
+	ob, _ := (&portalwire.Offer{ContentKeys: keys}).MarshalSSZ()
+	var resp []byte
+	if pn, msg := guard(func() { resp = R.HandleTalkRequest(req, R.Addr(), append([]byte{portalwire.OFFER}, ob...)) }); pn {
+		c.Emit("%s | panic %s", head, msg)
+		return
+	}
+	if verr != nil || len(resp) < 7 || resp[0] != portalwire.ACCEPT {
+		c.Emit("%s | err 1", head)
+		return
+	}
+	body := resp[7:]
+	acc := 0
+	if ver == 0 {
+		for i := 0; i < n && i/8 < len(body); i++ {
+			if body[i/8]&(1<<(i%8)) != 0 {
+				acc++
+			}
+		}
+	} else {
+		for _, b := range body {
+			if b == byte(portalwire.Accepted) {
+				acc++
+			}
+		}
+	}
+	cid := "z"
+	if resp[1] != 0 || resp[2] != 0 {
+		cid = "nz"
+	}
+	c.Emit("%s | ok acc=%d cid=%s", head, acc, cid)
+}
+
 func c19subset(mask int, base []byte) []byte {
 	out := []byte{}
 	for i, v := range base {
@@ -401,6 +452,10 @@ func c19replay(c *Ctx, lines []string) {
 			fmt.Sscan(f[5], &ex)
 			fmt.Sscan(f[6], &n)
 			c19accenc(c, unhx(f[1]), f[2], f[3], unhx(f[4]), ex == 1, n)
+		case "accfull":
+			var n int
+			fmt.Sscan(f[3], &n)
+			c19accfull(c, unhx(f[1]), unhx(f[2]), n)
 		case "live":
 			var n int
 			fmt.Sscan(f[3], &n)
@@ -492,6 +547,8 @@ func runC19(c *Ctx) {
 		c19accenc(c, []byte{0, 1}, "none", "list", []byte{0, 1}, ex, 4)
 		c19accenc(c, []byte{0, 1}, "0001", "missing", nil, ex, 5) // now without a pv entry: own base version
 	}
+	c19accfull(c, []byte{0, 1}, []byte{0, 1}, 3)
+	c19accfull(c, []byte{0, 1}, []byte{0}, 3)
 	c19accenc(c, []byte{1, 0}, "00", "missing", nil, false, 3)
 	c19accenc(c, []byte{0, 1}, "0001", "list", []byte{5}, false, 3)
 	nacc := 4
